@@ -24,6 +24,35 @@ Theorem C39_old_checked : forall s c s',
 Proof. exact g_apply_old. Qed.
 Print Assumptions C39_old_checked.
 
+(* "current value" in git's sense — the value reached through symbolic
+   references: an applied command named a reference that is its own referent
+   and whose resolved value is exactly the old value sent (absent for a create) *)
+Theorem C39_old_checked_resolved : forall s c s' f,
+  g_apply s c = Some s' -> resolve (S f) s (c_name c) = Some (c_name c, c_old c).
+Proof. exact g_apply_resolved. Qed.
+Print Assumptions C39_old_checked_resolved.
+
+(* a command naming a symbolic reference (HEAD, a branch alias, dangling or
+   not; create, update or delete) is never applied: a symbolic reference is
+   not equal to a zero or hash old value *)
+Theorem C39_symbolic_refused : forall s c, is_symbolic s (c_name c) = true -> g_apply s c = None.
+Proof. exact g_apply_symbolic. Qed.
+Print Assumptions C39_symbolic_refused.
+
+(* against git receive-pack's own rule (compare the old value with the
+   resolved value, update the referent; git_apply is validated against the git
+   binary on every run): equal on references that are not symbolic, and on
+   every reference whatever go-git applies git would apply, with the same effect *)
+Theorem C39_agrees_with_git : forall s c f,
+  is_invalid c = false -> is_symbolic s (c_name c) = false -> g_apply s c = git_apply (S f) s c.
+Proof. exact g_apply_git. Qed.
+Print Assumptions C39_agrees_with_git.
+
+Theorem C39_applied_subset_of_git : forall s c s' f,
+  is_invalid c = false -> g_apply s c = Some s' -> git_apply (S f) s c = Some s'.
+Proof. exact g_apply_subset_git. Qed.
+Print Assumptions C39_applied_subset_of_git.
+
 (* ... and only to an object the repository has (after unpacking) *)
 Theorem C39_new_exists : forall s c s', g_apply s c = Some s' -> new_present s (c_new c) = true.
 Proof. exact g_apply_new. Qed.
@@ -87,6 +116,23 @@ Proof.
   destruct (n =? 0); [intro E; injection E as <-; reflexivity|].
   destruct (n =? 1); [intro E; injection E as <-; reflexivity|discriminate].
 Qed.
+
+(* symbolic server references: HEAD -> branch 0, alias 3 -> branch 0, dangling
+   alias 4 -> 5: every action naming them is refused; git itself would apply the
+   update through the alias and the create on the dangling one (to the referent) *)
+Definition s_sym : store :=
+  mkStore [(0, RHash 0); (2, RSym 0); (3, RSym 0); (4, RSym 5)] [(0, tt); (1, tt)] 0 0 [] [].
+Example C39_symbolic_cases :
+  g_apply s_sym (mkCmd 2 None (Some 1)) = None            (* create over HEAD *)
+  /\ g_apply s_sym (mkCmd 3 None (Some 1)) = None         (* create over an alias *)
+  /\ g_apply s_sym (mkCmd 4 None (Some 1)) = None         (* create over a dangling alias *)
+  /\ g_apply s_sym (mkCmd 3 (Some 0) (Some 1)) = None     (* update, old = resolved value *)
+  /\ g_apply s_sym (mkCmd 3 (Some 0) None) = None         (* delete, old = resolved value *)
+  /\ git_apply 8 s_sym (mkCmd 3 None (Some 1)) = None     (* git refuses the create too *)
+  /\ git_apply 8 s_sym (mkCmd 3 (Some 0) (Some 1)) = Some (set_ref s_sym 0 1)
+  /\ git_apply 8 s_sym (mkCmd 4 None (Some 1)) = Some (set_ref s_sym 5 1)
+  /\ is_symbolic s_sym 3 = true.
+Proof. vm_compute. repeat split. Qed.
 
 (* the three witnesses of the tree as found are now refused *)
 Example C39_witnesses_refused :
